@@ -19,6 +19,8 @@ type gen struct {
 	sched   bool // scheduling class (completion order decided by the tape)
 	allNote bool // this batch: every entry without id
 	unser   bool // this input may call the methods whose result cannot be serialised
+	valid   bool // this input may call the methods with struct-typed, validated parameters (valid_gen.go)
+	vbytes  int  // bytes of struct-typed parameter values produced for this input so far
 	idPool  int
 }
 
@@ -124,6 +126,9 @@ func (g *gen) value(depth int) string {
 }
 
 func (g *gen) good(t ptype) string {
+	if isV(t) {
+		return g.vgood(t)
+	}
 	switch t {
 	case tInt:
 		return g.intLit()
@@ -154,6 +159,9 @@ func (g *gen) good(t ptype) string {
 }
 
 func (g *gen) wrong(t ptype) string {
+	if isV(t) {
+		return g.vwrong(t)
+	}
 	switch t {
 	case tInt, tPInt:
 		return g.pick("wrongint", `"5"`, "true", "[1]", "{}", "1.5", "9223372036854775808", `""`)
@@ -366,6 +374,12 @@ func (g *gen) request() string {
 	switch {
 	case mm < 10:
 		m = &methodTable[g.t.Draw("method", nPlainMethods)]
+		if g.valid && g.vbytes < 2400 && g.t.Chance("valid_method", 3, 4) {
+			m = &vMethodTable[g.t.Draw("vmethod", len(vMethodTable))]
+			if g.vbytes > 900 && (m.name == "vsimulate" || m.name == "vnode") {
+				m = &vMethodTable[0] // inputs are capped at 4 KiB: no second large value
+			}
+		}
 		if g.unser && g.t.Chance("unser_method", 1, 3) {
 			m = &methodTable[nPlainMethods+g.t.Draw("unser_which", len(methodTable)-nPlainMethods)]
 		}
